@@ -191,6 +191,6 @@ func TestC01(t *testing.T) {
 		"and closure capture under rebinding occur, (vt:mark k e) around half of the evaluated positions; oracle: independent reference evaluator (value(s) and whole ordered trace equal). " +
 		"Non-trivial: >= 3 form kinds, depth >= 3, >= 2 trace events and one of setq/lambda/loop/multiple values/funcall/mapcar. Distinct by program text.")
 	h.Assume("internal/refeval implements the language definition for this subset (it is ~600 lines written from the definition, not from slip)")
-	h.RunProp(t, core, h.N(6000, 250000))
+	h.RunProp(t, core, h.N(25000, 250000))
 	h.RunProp(t, quote, h.N(6000, 200000))
 }
